@@ -132,3 +132,64 @@ Proof.
       destruct (a id) eqn:Ea; [|reflexivity]. destruct (a (cc_r n k c u l)) eqn:C1; [|reflexivity].
       destruct (a (cc_r n k c v l)) eqn:C2; [|reflexivity]. exfalso. apply (H u v l); auto. apply In_sel. eauto.
 Qed.
+
+(* ---------- T2 ---------- *)
+Definition cc_enc (n k c : Z) (Eobj : Z * Z -> bool) (Q C : Z -> Z -> bool) : Z -> bool :=
+  fun v => if v <=? cc_ne n then enc (cc_etab n) Eobj v
+           else if v <=? cc_ne n + k * n then Q ((v - cc_ne n - 1) / n + 1) ((v - cc_ne n - 1) mod n + 1)
+           else C ((v - (cc_ne n + k * n) - 1) / c + 1) ((v - (cc_ne n + k * n) - 1) mod c + 1).
+
+Lemma cc_enc_E n k c Eobj Q C : cc_E (cc_enc n k c Eobj Q C) n = filter Eobj (pairs (upto n)).
+Proof.
+  unfold cc_E. rewrite (sel_ext _ (enc (cc_etab n) Eobj)).
+  - rewrite sel_enc by apply number_NoDup_snd. unfold cc_etab. now rewrite number_fst.
+  - intros e He. apply cc_etab_spec in He. unfold cc_enc. destruct (Z.leb_spec (snd e) (cc_ne n)); [reflexivity|lia].
+Qed.
+Lemma cc_enc_Q n k c Eobj Q C i u : 1 <= i <= k -> 1 <= u <= n -> cc_Q (cc_enc n k c Eobj Q C) n i u = Q i u.
+Proof.
+  intros Hi Hu. unfold cc_Q, cc_enc, cc_q. pose proof (bvar_range (cc_ne n) k n i u Hi Hu) as B.
+  destruct (Z.leb_spec (bvar (cc_ne n) n i u) (cc_ne n)); [lia|].
+  destruct (Z.leb_spec (bvar (cc_ne n) n i u) (cc_ne n + k * n)); [|lia].
+  destruct (bvar_inv (cc_ne n) n i u Hu) as [A1 A2]. now rewrite A1, A2.
+Qed.
+Lemma cc_enc_C n k c Eobj Q C v l : 0 <= n -> 0 <= k -> 1 <= v <= n -> 1 <= l <= c ->
+  cc_C (cc_enc n k c Eobj Q C) n k c v l = C v l.
+Proof.
+  intros Hn Hk Hv Hl. unfold cc_C, cc_enc, cc_r. pose proof (bvar_range (cc_ne n + k * n) n c v l Hv Hl) as B.
+  pose proof (Z.mul_nonneg_nonneg k n Hk Hn).
+  destruct (Z.leb_spec (bvar (cc_ne n + k * n) c v l) (cc_ne n)); [lia|].
+  destruct (Z.leb_spec (bvar (cc_ne n + k * n) c v l) (cc_ne n + k * n)); [lia|].
+  destruct (bvar_inv (cc_ne n + k * n) c v l Hl) as [A1 A2]. now rewrite A1, A2.
+Qed.
+
+Lemma clique_and_colouring_ext n k c E Q C Q' C' :
+  (forall i u, 1 <= i <= k -> 1 <= u <= n -> Q i u = Q' i u) ->
+  (forall v l, 1 <= v <= n -> 1 <= l <= c -> C v l = C' v l) ->
+  (forall u v, In (u, v) E -> 1 <= u <= n /\ 1 <= v <= n) ->
+  clique_and_colouring n k c E Q C -> clique_and_colouring n k c E Q' C'.
+Proof.
+  intros EQ EC HE (H1 & H2 & H3 & H4 & H5 & H6 & H7). repeat split.
+  - intros i Hi. destruct (H1 i Hi) as [u [Hu Qt]]. exists u. split; auto. now rewrite <- EQ.
+  - intros i u1 u2 Hi Hu1 Hu2 A B. apply (H2 i); auto; now rewrite EQ.
+  - intros u i1 i2 Hu Hi1 Hi2 A B. apply (H3 u); auto; now rewrite EQ.
+  - intros i1 i2 u v Hi1 Hi2 Hne Hu Hv Huv A B. apply (H4 i1 i2); auto; now rewrite EQ.
+  - intros v Hv. destruct (H5 v Hv) as [l [Hl Ct]]. exists l. split; auto. now rewrite <- EC.
+  - intros v l1 l2 Hv Hl1 Hl2 A B. apply (H6 v); auto; now rewrite EC.
+  - intros u v l Hin Hl A B. destruct (HE u v Hin) as [Hu Hv]. apply (H7 u v l); auto; now rewrite EC.
+Qed.
+
+Theorem cliquecol_T2 n k c (Eobj : Z * Z -> bool) Q C : 0 <= n -> 0 <= k -> 0 <= c ->
+  clique_and_colouring n k c (filter Eobj (pairs (upto n))) Q C ->
+  exists a, irs_hold a (cliquecol_ir n k c) = true /\
+    cc_E a n = filter Eobj (pairs (upto n)) /\
+    (forall i u, 1 <= i <= k -> 1 <= u <= n -> cc_Q a n i u = Q i u) /\
+    (forall v l, 1 <= v <= n -> 1 <= l <= c -> cc_C a n k c v l = C v l).
+Proof.
+  intros Hn Hk Hc HP. exists (cc_enc n k c Eobj Q C).
+  split; [|split; [apply cc_enc_E|split; intros; [now apply cc_enc_Q|now apply cc_enc_C]]].
+  apply cliquecol_T1; try assumption. rewrite cc_enc_E.
+  apply (clique_and_colouring_ext n k c _ Q C); auto.
+  - intros. symmetry. now apply cc_enc_Q.
+  - intros. symmetry. now apply cc_enc_C.
+  - intros u v Hin. apply filter_In in Hin as [Hin _]. apply In_pairs_upto in Hin. lia.
+Qed.
